@@ -262,9 +262,9 @@ class Pool():
                     self._depleted = True
                     return False, False, None
 
-            def get_next_idle_worker():
+            def get_next_idle_worker(skip=()):
                 maybe_idle = set(wid for wid, workload in self._pending_per_worker.items() if not workload)
-                idle = maybe_idle.difference(self._closed)
+                idle = maybe_idle.difference(self._closed).difference(skip)
                 if not idle:
                     return None
                 return self._workers[next(iter(idle))]
@@ -284,11 +284,14 @@ class Pool():
                 if worker_callback:
                     worker_callback(worker, 'died')
 
+                tried = set()
                 while self._retries:
-                    idle = get_next_idle_worker()
+                    # try each idle worker once, a worker can stay idle if the enqueue function refuses to give it the data
+                    idle = get_next_idle_worker(tried)
                     if idle is None:
                         break
 
+                    tried.add(idle.id)
                     logger.debug('Found an idle worker: {}, trying to enqueue workload from previous failures worker to it', idle)
                     try_enqueue(idle)
 
